@@ -144,7 +144,23 @@ impl Engine for MultiEngine {
         if out.closed.is_some() || out.failure.is_some() {
             return CaseReport { events: vec!["history_closed"], evaluations: 1, ..Default::default() };
         }
-        let conc = MultiConcrete { a, b, calls: out.calls.clone(), xproc: case.xproc < 6 };
+        // at the end: slice_some from every eligible vertex under three fixed predicates
+        let mut calls = out.calls.clone();
+        {
+            let mut r = crate::interp::Runner::new(small);
+            for c in &calls {
+                r.step(c);
+            }
+            if !r.desynced {
+                let starts: Vec<usize> = r.m.alive().into_iter().filter(|v| r.m.reachable(*v).is_some_and(|x| x.len() >= 3 && x.len() <= 14)).take(8).collect();
+                for v in starts {
+                    for seed in [case.n2_sel as u16, 0x1234, case.hist.order_sel] {
+                        calls.push(Call::SliceSome(v, seed));
+                    }
+                }
+            }
+        }
+        let conc = MultiConcrete { a, b, calls, xproc: case.xproc < 6 };
         let (failure, ran) = Self::check(&conc);
         let has = |f: &dyn Fn(&Call) -> bool| conc.calls.iter().any(|c| f(c));
         let interesting = has(&|c| matches!(c, Call::Merge { .. } | Call::Slice(_) | Call::SliceSome(..) | Call::NextId | Call::NextIdAdd));
